@@ -125,6 +125,75 @@ Proof.
       unfold jl. destruct (justify_line_spec x width) as (c & _ & r & Hr & _). rewrite Hr. reflexivity.
 Qed.
 
+(* Align in paragraph mode *)
+Definition align_piece (a w : Z) (lsep para : gstr) : gstr :=
+  let bl := tb_new para lsep in
+  if tb_len bl =? 0 then para
+  else tb_join (tb_with_lines bl (map (fun l => align_line a l w) (b_lines bl))).
+
+Lemma apply_lines_map1 (h : gstr -> gstr) : forall l i, apply_lines (fun _ line => Ok [h line]) i l = Ok (map h l).
+Proof. induction l as [|x l IH]; intro i; [reflexivity|]. cbn [apply_lines bind map]. rewrite IH. reflexivity. Qed.
+
+Lemma set_nth_same {A} (l : list A) : forall n y, nth_error l n = Some y -> set_nth l n y = l.
+Proof. induction l as [|a l IH]; intros [|n] y En; cbn [nth_error set_nth] in *; try discriminate; [inversion En; reflexivity|f_equal; apply IH, En]. Qed.
+
+Lemma tb_set_same (bl : block) x rest : b_lines bl = x :: rest ->
+  tb_line bl 0 = Ok x /\ tb_set bl 0 x = Ok bl.
+Proof.
+  intro E. unfold tb_line, tb_set, znth, zset. rewrite E. change (0 <? 0) with false. cbn [Z.to_nat nth_error orb]. split; [reflexivity|].
+  replace (zlen (x :: rest) <=? 0) with false by (unfold zlen; cbn [length]; lia). cbn [set_nth bind].
+  destruct bl as [L S T]. cbn [b_lines b_sep b_trailing] in *. subst L. reflexivity.
+Qed.
+
+Lemma align_para_plain a w lsep idx para : (a = A_Left \/ a = A_Right \/ a = A_Center) ->
+  align_para a w lsep idx para [] [] = Ok [align_piece a w lsep para].
+Proof.
+  intro Ha. unfold align_para, align_piece. change (glen []) with 0. change (spaces 0) with (@nil Z). cbv zeta.
+  change (glen []) with 0. unfold gadd. cbn [app]. rewrite ?app_nil_r. change (0 <? 0) with false. cbv iota.
+  set (bl := tb_new para lsep).
+  destruct (tb_len bl =? 0) eqn:El; [destruct Ha as [Ha|[Ha|Ha]]; subst a; reflexivity|].
+  assert (Hne : exists x rest, b_lines bl = x :: rest).
+  { unfold tb_len, zlen in El. destruct (b_lines bl) as [|x rest]; [cbn in El; discriminate|eauto]. }
+  destruct Hne as (x & rest & Ebl). destruct (tb_set_same bl x rest Ebl) as [Hline Hset].
+  assert (Hlast : exists y, tb_line bl (tb_len bl - 1) = Ok y /\ tb_set bl (tb_len bl - 1) y = Ok bl).
+  { unfold tb_line, tb_set, tb_len, znth, zset. rewrite Ebl.
+    assert (Hz : 1 <= zlen (x :: rest)) by (unfold zlen; cbn [length]; lia).
+    replace (zlen (x :: rest) - 1 <? 0) with false by lia.
+    destruct (nth_error (x :: rest) (Z.to_nat (zlen (x :: rest) - 1))) as [y|] eqn:En; [|apply nth_error_None in En; unfold zlen in *; lia].
+    exists y. split; [reflexivity|]. replace (zlen (x :: rest) <=? zlen (x :: rest) - 1) with false by lia.
+    cbn [orb bind]. rewrite (set_nth_same _ _ _ En). destruct bl as [L S T]. cbn [b_lines b_sep b_trailing] in *. subst L. reflexivity. }
+  destruct Hlast as (y & Hly & Hsy).
+  unfold tb_apply.
+  destruct Ha as [Ha|[Ha|Ha]]; subst a; cbn [Z.eqb A_Left A_Right A_Center].
+  - change (A_Left =? A_Left) with true. cbv iota. rewrite Hline. cbn [bind]. rewrite ?app_nil_r, Hset. cbn [bind].
+    rewrite apply_lines_map1. cbn [bind]. reflexivity.
+  - change (A_Right =? A_Left) with false. change (A_Right =? A_Right) with true. cbv iota. rewrite Hly. cbn [bind]. rewrite Hsy. cbn [bind].
+    rewrite apply_lines_map1. cbn [bind]. reflexivity.
+  - change (A_Center =? A_Left) with false. change (A_Center =? A_Right) with false. cbv iota.
+    rewrite apply_lines_map1. cbn [bind]. reflexivity.
+Qed.
+
+Theorem align_opts_paragraphs a width opts e :
+  let o := with_defaults opts in
+  (a = A_Left \/ a = A_Right \/ a = A_Center) ->
+  o_preserve o = true -> no_affix (o_parasep o) (o_linesep o) ->
+  let ps := pieces (e_text e) (o_parasep o) (o_linesep o) in
+  align_opts a width opts e =
+    Ok (with_text e (join (o_parasep o) (map (fun b => encode (align_piece a width (decode (o_linesep o)) (decode b))) ps))).
+Proof.
+  cbv zeta. intros Ha Hp Hna. unfold align_opts.
+  replace ((a =? A_None) || (negb (a =? A_Left) && negb (a =? A_Right) && negb (a =? A_Center))) with false
+    by (unfold A_None, A_Left, A_Right, A_Center in *; destruct Ha as [Ha|[Ha|Ha]]; subst a; reflexivity).
+  rewrite Hp.
+  assert (Hna' : no_affix (o_parasep (with_defaults (with_defaults opts))) (o_linesep (with_defaults (with_defaults opts))))
+    by (rewrite wd_parasep_idem, wd_linesep_idem; exact Hna).
+  rewrite (apply_gparagraphs_map _ (fun _ para => align_piece a width (decode (o_linesep (with_defaults opts))) para) (with_defaults opts) e Hna').
+  - rewrite wd_parasep_idem, wd_linesep_idem. do 3 f_equal.
+    apply (map_snd_combine (fun b => encode (align_piece a width (decode (o_linesep (with_defaults opts))) (decode b)))).
+    rewrite map_length, seq_length. reflexivity.
+  - intros i para. apply align_para_plain. exact Ha.
+Qed.
+
 Example no_affix_default : no_affix [10; 10] [10] /\ no_affix [13; 10; 13; 10] [13; 10] /\ no_affix [10; 10; 10] [10].
 Proof. repeat split; vm_compute; reflexivity. Qed.
 
